@@ -61,6 +61,7 @@ pub fn gen_explorer(seed: u64) -> ExplorerScenario {
         undiscoverable: true,
         boundary: true,
         ignored: true,
+        many_props: false,
     };
     let mut graph = gen_graph(&mut rng, &o);
     graph.mute_steps = rng.chance(1, 3);
